@@ -28,6 +28,8 @@ type C04Case struct {
 	Sign      string        `json:"sign,omitempty"` // debsign | dpkg-sig | rpm | apk2048 | apk4096
 	DescLen   int           `json:"desc_len,omitempty"`
 	ScriptLen int           `json:"script_len,omitempty"`
+	// ScriptMask: with Scripts, the subset of the format's script slots that is configured (0 = all)
+	ScriptMask uint `json:"script_mask,omitempty"`
 }
 
 func keyPath(env *engine.Env, name string) string { return filepath.Join(env.Verif, "keys", name) }
@@ -173,6 +175,14 @@ func init() {
 			}
 			// signed variants
 			payloads := [][]model.Entry{nil, {ts[0]}, {ts[0], ts[6]}}
+			// every non-empty subset of the script slots of every format (control members / .INSTALL presence)
+			for _, f := range Formats {
+				for m := uint(1); m < 1<<uint(len(scriptSlots[f])); m++ {
+					if !yield(C04Case{Class: "script-subset", Format: f, Setting: Setting{Name: "default"}, List: []model.Entry{ts[0]}, Scripts: true, ScriptMask: m}) {
+						return
+					}
+				}
+			}
 			for _, pl := range payloads {
 				for _, sign := range []string{"debsign", "dpkg-sig"} {
 					for _, s := range c04Settings("deb") {
@@ -222,8 +232,10 @@ func c04Doc(env *engine.Env, c C04Case) (fixture.Doc, error) {
 		if err := writeScripts(t, c.Format, "normal"); err != nil {
 			return nil, err
 		}
-		for _, s := range scriptSlots[c.Format] {
-			setPath(d, s.Key, scriptPath(t, "normal", s.Key))
+		for i, s := range scriptSlots[c.Format] {
+			if c.ScriptMask == 0 || c.ScriptMask&(1<<uint(i)) != 0 {
+				setPath(d, s.Key, scriptPath(t, "normal", s.Key))
+			}
 		}
 		if c.ScriptLen > 0 {
 			// .pre-upgrade sorts last among the apk control members
